@@ -205,8 +205,10 @@ def gen_c16(tier, seed):
             pre = r.choice([0, 5])
             sinks = ("s%d" % pre, "c")
             k = r.randint(0, 8)
-            faults.append("FR realloc %d 12" % k)   # armed right before the drain, counted from there
+            fn = "realloc" if r.random() < 0.7 else "anyalloc"   # the k-th allocation call of any kind
+            faults.append("FR %s %d 12" % (fn, k))   # armed right before the drain, counted from there
             meta["realloc_fail"] = k
+            meta["alloc_fn"] = fn
         elif kind == 4:
             o["dl"] = r.choice([10, 30, 1000])
         elif kind == 5:
@@ -245,6 +247,8 @@ def gen_c16(tier, seed):
                 parts.append("Z %d" % r.choice([10, 50, 200]))
             parts += faults
             parts.append("DR 0 %s %s" % sinks)
+            if faults:
+                parts.append("FOFF")   # the fault is aimed at this drain only
             if r.random() < 0.5 and kind not in (1, 3):
                 parts.append("DR 0 c c")  # a second drain: both streams closed already
             parts.append("D 0")
@@ -569,7 +573,7 @@ def judge_c16(case, log):
         while n_init < len(calls) and n_init < len(exp_first) and calls[n_init][1] == 0:
             n_init += 1
         got_first = [tuple(c[:3]) for c in calls[:n_init]]
-        alloc_failed = ret == ENOMEM and any(f[4] for f in (log.fin.get("faults") or []))
+        alloc_failed = ret == ENOMEM and any(t[7] & 1 for t in op.get("tr", []))
         if got_first != exp_first[:n_init] or (n_init < len(exp_first) and not alloc_failed):
             V(vs, "C16", "initial-calls-wrong", "first sink calls %s, expected %s" % ([tuple(c[:3]) for c in calls[:len(exp_first)]], exp_first))
         exp_first = exp_first[:n_init]
@@ -613,7 +617,7 @@ def judge_c16(case, log):
                 V(vs, "C16", "run-wrong-status", "run returned %d, the child ended with %d" % (ret, hs.end_status))
             continue
         if m.get("realloc_fail") is not None and not only_second:
-            fired = any(f[4] for f in (log.fin.get("faults") or []))
+            fired = any(t[7] & 1 for t in op.get("tr", []))
             if fired:
                 obs["realloc_faults_fired"] += 1
                 if (not is_run and ret != ENOMEM) or (is_run and ret != ENOMEM):
@@ -622,6 +626,16 @@ def judge_c16(case, log):
                 reallocs = [t for t in op.get("tr", []) if t[0] == "realloc"]
                 ok = [t for t in reallocs if t[5] == 1]
                 exp_len = (ok[-1][3] - 1) if ok else None
+                if m.get("alloc_fn") == "anyalloc":
+                    # no assumption about which function grows the string: it must be an intact
+                    # prefix (original content + some of what was received), never shorter than it was
+                    for s in op.get("strs", []):
+                        obs["string_sinks"] += 1
+                        if s[3] != -1:
+                            V(vs, "C16", "string-sink-corrupt-on-enomem", "string content wrong at %s after allocation failure" % s[3])
+                        if s[2] < s[1] and not (s[2] == -1 and s[1] == 0):
+                            V(vs, "C16", "string-sink-length-on-enomem", "string has %d bytes after the allocation failure, it had %d before the drain" % (s[2], s[1]))
+                    continue
                 for s in op.get("strs", []):
                     obs["string_sinks"] += 1
                     if s[3] != -1:
